@@ -94,6 +94,12 @@ def vec_names(spec, vec):
     if t == "mdiag":
         d = var_decl(spec, vec[1])
         return [mel_name(d, i, i) for i in range(d["rows"])]
+    if t == "mTrow":
+        d = var_decl(spec, vec[1])
+        return [mel_name(d, i, vec[2]) for i in range(d["rows"])]
+    if t == "msubrow":
+        d = var_decl(spec, vec[1])
+        return [mel_name(d, vec[2], j) for j in range(vec[3], vec[4])]
     if t in ("vscale", "vshift"):
         return vec_names(spec, vec[1])
     raise ValueError(f"bad VEC {vec!r}")
@@ -260,6 +266,10 @@ def build_vec(m, vec):
         return m.vars[vec[1]][:, vec[2]]
     if t == "mdiag":
         return m.vars[vec[1]].diagonal()
+    if t == "mTrow":
+        return m.vars[vec[1]].T[vec[2], :]
+    if t == "msubrow":
+        return m.vars[vec[1]][vec[2] : vec[2] + 1, vec[3] : vec[4]][0, :]
     if t == "vscale":
         return build_vec(m, vec[1]) * vec[2]
     if t == "vshift":
